@@ -80,6 +80,9 @@ class World:
         self.log = []  # (kind, raw path, normalised path) for every access
         self.muts = 0
         self.crash_at = None
+        self.fault_at = None  # the k-th mutation fails with OSError(ENOSPC) (process keeps running)
+        self.fault_kinds = ("truncate", "append", "obj-add", "ref-set")
+        self.faulted = None
         self.dead = False
         self.sched = Sched()
         self.interned = []  # [(kind, key)] -> id index
@@ -116,6 +119,10 @@ class World:
         if self.crash_at is not None and self.muts == self.crash_at:
             self.dead = True
             raise Crash(kind)
+        if self.fault_at is not None and self.muts == self.fault_at and kind in self.fault_kinds:
+            self.faulted = kind
+            self.fault_at = None
+            raise OSError(errno.ENOSPC, "No space left on device (injected fault at %s)" % kind)
         return True
 
     # -- path resolution --------------------------------------------------------------------------
